@@ -121,13 +121,15 @@ PROPS = {
         title='Fiat-Shamir challenges depend on the whole statement and prior transcript',
         design_ref='DESIGN.md section 4 / C04',
         bounded=[('plonky2', ['c04_']), ('starky', ['c04_'])],
-        vspecs=['contracts/C04/challenger.vspec', 'contracts/C04/transcript.vspec'],
+        vspecs=['contracts/C04/challenger.vspec', 'contracts/C04/transcript.vspec', 'contracts/C18/stark_shape.vspec'],
         level_text='Unbounded deductive proof (Verus/Z3) that (i) every Challenger method implements the overwrite-mode duplex sponge state machine '
                    '(absorbing invalidates buffered outputs; a challenge is drawn only after pending inputs were duplexed), and (ii) get_challenges / '
                    'fri_challenges / FriParams::observe / FriConfig::observe compute exactly the transcript function written in the order of the property: '
                    'FRI+degree parameters, circuit digest, public-input hash, wires cap -> betas, gammas [deltas] -> zs cap -> alphas -> quotient cap -> zeta '
                    '-> openings -> alpha -> per commit-phase cap (cap, then beta) -> final polynomial -> PoW witness -> PoW response -> query indices. '
-                   'Every challenge is therefore a named function of every message absorbed before it; dropping or reordering an absorption fails a postcondition.',
+                   'Every challenge is therefore a named function of every message absorbed before it; dropping or reordering an absorption fails a postcondition. '
+                   'STARK side, entry level only: StarkProofWithPublicInputs::get_challenges absorbs the public inputs before the proof\'s own derivation and passes ignore_trace_cap through, and verify_stark_proof '
+                   'uses a fresh transcript with ignore_trace_cap = false and no supplied challenges (unit stark_shape); the derivation inside StarkProof::get_challenges is uninterpreted there.',
         level_note='Trusted: Verus+Z3; the sponge permutation is uninterpreted (that altering an absorbed element changes later challenges is the '
                    'random-oracle reading of the permutation, outside the family); FriReductionStrategy::serialize, to_fri_openings, Vec::drain/iter::repeat '
                    'adaptors assumed. Not covered: the PROVER transcript in prove_with_partition_witness (rayon/timing macros; agreement with the verifier '
@@ -178,7 +180,7 @@ PROPS = {
         bounded=[('plonky2', ['c16_', 'c17_all'])],
         vspecs=['contracts/C16/path_compression.vspec', 'contracts/C16/compressed_verify.vspec'],
         level_text='Unbounded deductive proof (Verus/Z3) that compress_merkle_proofs keeps every `known[..]` access in bounds for all index multisets and heights '
-                   'and returns, per input path, a SUBSEQUENCE of that path\'s siblings (nothing invented or reordered); and that CompressedProofWithPublicInputs::verify returns Ok only if the public-input count equals the circuit\'s, the DECOMPRESSED proof passed validate_proof_shape and verify_with_challenges accepted it under the challenges derived from the compressed form (unit compressed_verify; the decompression functions themselves are uninterpreted there). Losslessness of the whole '
+                   'and returns, per input path, a SUBSEQUENCE of that path\'s siblings (nothing invented or reordered); and that CompressedProofWithPublicInputs::verify returns Ok only if the public-input count equals the circuit\'s, the DECOMPRESSED proof passed validate_proof_shape and verify_with_challenges accepted it under the challenges derived from the compressed form (unit compressed_verify; the decompression functions themselves are uninterpreted there), and that compress / decompress of a proof with public inputs carry the public inputs over unchanged and (de)compress the proof at the proof\'s own query positions / under the challenges of the compressed form. Losslessness of the whole '
                    'compress/decompress pair and verification equivalence (HashMap / iterator-of-iterators code) are covered by a bounded stand-in only.',
         level_note='Trusted: Verus+Z3; hashes opaque. decompress_merkle_proofs, FriProof::compress, CompressedFriProof::decompress, get_inferred_elements: '
                    'bounded harness only (8 arity schedules incl. non-uniform ones, cap heights 0..5, up to 500 queries, all index multisets of small trees).',
